@@ -492,6 +492,46 @@ Theorem C02_results_manager_modes :
 Proof. repeat split; intros; reflexivity. Qed.
 
 (* ------------------------------------------------------------------------
+   The model identifies task = path = source id, and lets the values of a
+   task be those of its own file.  In the code: *)
+
+(* (i) get_source_id reuses an id only for the very same path string,
+   starts at [source_id_first] and otherwise takes a number above every id in
+   use; hence any two catalog paths that got the same id ARE the same path -
+   two spellings / a symlink alias of one file are two sources, each with
+   its own results (strings as lists of code points) *)
+Theorem C02_source_ids_injective : forall (ps : list (list Z)) p q i,
+  source_id_reused_iff_same_path_string = true ->
+  let same := fun a b : list Z =>
+                if list_eq_dec Z.eq_dec a b then true else false in
+  let tbl := register_all (list Z) same source_id_first source_id_fresh ps in
+  lookup_id (list Z) same p tbl = Some i ->
+  lookup_id (list Z) same q tbl = Some i -> p = q.
+Proof.
+  intros ps p q i _ same.
+  apply (source_ids_injective (list Z) same source_id_first source_id_fresh).
+  - intros a b. unfold same. destruct (list_eq_dec Z.eq_dec a b);
+      split; intros H; congruence.
+  - intros m. unfold source_id_fresh. apply Z.lt_succ_diag_r.
+Qed.
+
+Theorem C02_source_id_source_shape :
+  source_id_reused_iff_same_path_string = true /\ source_id_first = 0 /\
+  forall m, m < source_id_fresh m.
+Proof.
+  split; [reflexivity|]. split; [reflexivity|].
+  intros m. unfold source_id_fresh. apply Z.lt_succ_diag_r.
+Qed.
+
+(* (ii) a task's store object creates its own fresh local store and
+   consults nothing outside itself: the values a task's results refer to
+   are de-duplicated against that task's values only, never against those
+   of another file the same worker searched *)
+Theorem C02_worker_local_store_fresh_per_task :
+  worker_local_store_fresh_per_task = true.
+Proof. reflexivity. Qed.
+
+(* ------------------------------------------------------------------------
    Non-vacuity *)
 
 (* a 2-file run with capacity 1 (two Puts meet a full queue) that returns;
@@ -557,3 +597,5 @@ Print Assumptions C02_thread_manager_stop.
 Print Assumptions C02_thread_manager_stop_once.
 Print Assumptions C02_collector_thread_wiring.
 Print Assumptions C02_results_manager_modes.
+Print Assumptions C02_source_ids_injective.
+Print Assumptions C02_worker_local_store_fresh_per_task.
